@@ -418,6 +418,12 @@ func (e *Exec) selector(v *ast.SelectorExpr, c *Ctx) Term {
 		return r
 	}
 	if !c.spec {
+		if sel, ok := c.fr.info.Selections[v]; ok && sel.Kind() == types.FieldVal {
+			// a field of a struct outside the modelled packages (net/http.Request, ...): an arbitrary value of its type
+			t := e.prog.TypeOf(sel.Type(), c.fr.subst)
+			e.note("field %s of %s (not modelled): arbitrary value", v.Sel.Name, base.T)
+			return Term{e.vc.FreshConst("extfield_"+v.Sel.Name, e.Sort(t)), t}
+		}
 		// method value: remember receiver and method so that a later call through the variable resolves
 		id := e.vc.FreshConst("methodval", "Int")
 		if sel, ok := c.fr.info.Selections[v]; ok && sel.Kind() == types.MethodVal {
